@@ -38,6 +38,17 @@ LEVEL_NOTE = "Trusted: Lean kernel + standard axioms; spec by enumeration; harne
 TECHNIQUE = "Lean 4 proof (skeleton characterisation by d-separation, extension predicate soundness, Markov class by enumeration) + exhaustive differential check of PC / to_dag"
 
 NAMES = ["A", "B", "C", "D", "E", "F"]
+
+
+def names_for(n, salt):
+    """variable names: letters, or the integers 0..n-1 in a rotated order (0 is an ordinary name), or 1..n"""
+    k = salt % 4
+    if k == 1:
+        r = salt % n if n else 0
+        return [(i + r) % n for i in range(n)]
+    if k == 2:
+        return [i + 1 for i in range(n)]
+    return NAMES[:n]
 _D = {}
 
 
@@ -92,7 +103,9 @@ def run_pc(case, drv):
     n, edges = case["n"], case["edges"]
     # node insertion order varies with `perm`
     order = list(itertools.permutations(range(n)))[case["perm"] % len(list(itertools.permutations(range(n))))] if n <= 5 else tuple(range(n))
-    names = NAMES[:n]
+    # (independence LISTS take string variables only - IndependenceAssertion is documented for strings; the callable oracle and the
+    # PDAG functions take any hashable name)
+    names = names_for(n, len(edges) + case.get("perm", 0)) if case["oracle"] != "list" else NAMES[:n]
     truth = DAG()
     truth.add_nodes_from([names[i] for i in order])
     truth.add_edges_from([(names[u], names[v]) for u, v in edges])
@@ -116,7 +129,8 @@ def run_pc(case, drv):
                     for r in range(len(rest) + 1):
                         for Z in itertools.combinations(rest, r):
                             if not drv.call("g_dsep", g=mg, obs=list(Z), x=a, y=b):
-                                stm.append([names[a], names[b], [names[z] for z in Z]] if Z else [names[a], names[b]])
+                                # events are given as lists: a bare name that is falsy (the variable 0) would read as "not specified"
+                                stm.append([[names[a]], [names[b]], [names[z] for z in Z]] if Z else [[names[a]], [names[b]]])
             ind = Independencies(*stm)
             if set(ind.get_all_variables()) != set(names):
                 return skip("a variable occurs in no independence statement (the API derives the variable set from the list)")
@@ -200,7 +214,7 @@ def run_todag(case, drv):
     import random
     from pgmpy.base import PDAG
     n, edges = case["n"], case["edges"]
-    names = NAMES[:n]
+    names = names_for(n, case["shuffle"] + n)
     rng = random.Random(case["shuffle"])
     spec = drv.call("cpdag_spec", g={"nodes": list(range(n)), "edges": edges})
     if case["mode"] == "cpdag":
